@@ -395,7 +395,7 @@ static void huge_stride_case(uint64_t N, int native, unsigned rep) {
   if (!case_begin(native ? "svp_apply_dft+vec_znx_dft|limb stride >= 2^29 words" : "svp_apply_dft+vec_znx_dft|limb stride >= 2^29 words,generic", "N=%" PRIu64 " rep=%u", N, rep)) return;
   rng_t* r = crng();
   const MODULE* mod = get_module(N, FFT64, native);
-  static const uint64_t SL[] = {(1ull << 29), (1ull << 29) + 1, (1ull << 29) - 1 + 8, (1ull << 30) + 24, 3ull << 28};
+  static const uint64_t SL[] = {(1ull << 29), (1ull << 29) + 1, (1ull << 29) - 1 + 8, (1ull << 30) + 24, 3ull << 28, (1ull << 31) + 8, 3ull << 30, (1ull << 32) + 16};  // (index of the last limb in words: up to 2^33, beyond 32 bits)
   const uint64_t sl = SL[rep % ARRAY_LEN(SL)], rows = 3;
   const size_t len = ((rows - 1) * sl + N) * 8 + 8192;
   uint8_t* map = mmap(0, len, PROT_READ | PROT_WRITE, MAP_PRIVATE | MAP_ANONYMOUS | MAP_NORESERVE, -1, 0);
@@ -589,7 +589,7 @@ void run_C01(void) {
     if (th) many_live_case(4, 66000, native, 2);
   }
   for (int native = 1; native >= 0; native--)
-    for (unsigned rep = 0; rep < 5; rep++) {
+    for (unsigned rep = 0; rep < 8; rep++) {
       huge_stride_case(8, native, rep);
       huge_stride_case(64, native, rep);
       if (th) huge_stride_case(4096, native, rep);
